@@ -40,7 +40,9 @@ Cand ==
     en   |-> {V("enum:RED", 1), V("enum:BLUE", 1), V("enum?:99", 0), V("enum?:-1", 0)},
     idr  |-> {V("enum:CIRCLE", 1), V("enum?:99", 0)},
     un   |-> {V("int32:5", <<"int", 5>>), V("str:abc", <<"str", TRUE>>), V("int32:10", <<"int", 10>>), V("str:ABC", <<"str", FALSE>>)},
-    bin  |-> {V("bin:00", 1), V("bin:00ff1020", 4), V("bin:", 0), V("bin:0011223344", 5)} ]
+    bin  |-> {V("bin:00", 1), V("bin:00ff1020", 4), V("bin:", 0), V("bin:0011223344", 5)},
+    \* union { uint16; union { string [a-z]+; boolean } }: the nested union is not the first member
+    nu   |-> {V("uint16:80", <<"int", 80>>), V("str:abc", <<"str", TRUE>>), V("bool:true", <<"bool", TRUE>>), V("str:ABC", <<"str", FALSE>>)} ]
 
 Fields == DOMAIN Cand
 
@@ -53,11 +55,14 @@ FieldValid(f, v) ==
     [] f \in {"en", "idr"} -> v.n = 1                              \* a defined member
     [] f = "un"  -> IF v.n[1] = "int" THEN 0 <= v.n[2] /\ v.n[2] <= 9 ELSE v.n[2]   \* fits a member type
     [] f = "bin" -> 1 <= v.n /\ v.n <= 4                           \* length in bytes
+    [] f = "nu"  -> IF v.n[1] = "int" THEN TRUE ELSE v.n[2]         \* fits uint16, or one of the nested members
 
 \* structural part: leaf-lists as sequences of texts, list ml as a set of [key, keyleaf, n],
 \* choice c2 as the set of populated cases
-Struct(cfgll, sll, mm, ml, c2) == [cfgll |-> cfgll, sll |-> sll, mm |-> mm, ml |-> ml, c2 |-> c2, ull |-> << >>]
+\* mk: the two-key list as a set of [k1, k2 (map key), kl1, kl2 (key leaves, "" when unset)]
+Struct(cfgll, sll, mm, ml, c2) == [cfgll |-> cfgll, sll |-> sll, mm |-> mm, ml |-> ml, c2 |-> c2, ull |-> << >>, mk |-> {}]
 WithUll(s, u) == [s EXCEPT !.ull = u]
+WithMk(s, m) == [s EXCEPT !.mk = m]
 
 NoDupSeq(s) == Cardinality({s[i] : i \in 1..Len(s)}) = Len(s)
 
@@ -68,6 +73,7 @@ StructValid(s) ==
                                                                           \* leaf-list is not decided: partial trees)
   /\ Cardinality(s.ml) <= 2                             \* max-elements 2
   /\ \A e \in s.ml : e.kl = e.k                          \* map key equals the key leaf (an unset key leaf is "")
+  /\ \A e \in s.mk : e.kl1 = e.k1 /\ e.kl2 = e.k2        \* ... for every key of a multi-key list
   /\ Cardinality(s.c2) <= 1                             \* at most one case of the choice
   \* s.sll (state leaf-list) may hold duplicates
 
@@ -76,7 +82,9 @@ GoodStructs ==
     Struct(<<"str:a", "str:b">>, <<"str:s", "str:s">>, <<"uint8:1", "uint8:2", "uint8:3">>,
            {[k |-> "str:k1", kl |-> "str:k1"], [k |-> "str:k2", kl |-> "str:k2"]}, {"x"}),
     Struct(<<"str:a">>, <<"str:s">>, << >>, {[k |-> "str:k1", kl |-> "str:k1"]}, {"y"}),
-    WithUll(Struct(<< >>, << >>, << >>, {[k |-> "str:", kl |-> "str:"]}, {}), <<"int32:5", "str:5">>) }
+    WithUll(Struct(<< >>, << >>, << >>, {[k |-> "str:", kl |-> "str:"]}, {}), <<"int32:5", "str:5">>),
+    WithMk(Struct(<< >>, << >>, << >>, {}, {}), {[k1 |-> "str:a", k2 |-> "uint8:1", kl1 |-> "str:a", kl2 |-> "uint8:1"],
+                                                  [k1 |-> "str:a", k2 |-> "uint8:0", kl1 |-> "str:a", kl2 |-> "uint8:0"]}) }
 
 BadStructs ==
   { Struct(<<"str:a", "str:a">>, << >>, << >>, {}, {}),                                         \* duplicate config leaf-list value
@@ -89,13 +97,16 @@ BadStructs ==
     Struct(<< >>, << >>, << >>, {[k |-> "str:", kl |-> "str:other"]}, {}),                     \* ... under the zero-valued map key
     WithUll(Struct(<< >>, << >>, << >>, {}, {}), <<"int32:5", "str:x", "int32:5">>),           \* duplicate in a union leaf-list
     Struct(<< >>, << >>, << >>, {[k |-> "str:k1", kl |-> ""]}, {}),                            \* key leaf unset
-    Struct(<< >>, << >>, << >>, {}, {"x", "y"}) }                                               \* two cases
+    Struct(<< >>, << >>, << >>, {}, {"x", "y"}),                                                \* two cases
+    WithMk(Struct(<< >>, << >>, << >>, {}, {}), {[k1 |-> "str:a", k2 |-> "uint8:1", kl1 |-> "str:a", kl2 |-> ""]}),      \* second key leaf unset
+    WithMk(Struct(<< >>, << >>, << >>, {}, {}), {[k1 |-> "str:a", k2 |-> "uint8:1", kl1 |-> "", kl2 |-> "uint8:1"]}),    \* first key leaf unset
+    WithMk(Struct(<< >>, << >>, << >>, {}, {}), {[k1 |-> "str:a", k2 |-> "uint8:1", kl1 |-> "str:a", kl2 |-> "uint8:2"]}) }  \* key mismatch
 
 \* base assignments of the scalar fields: all absent, and two assignments of valid values
 B1 == [i8 |-> "int8:-10", u16 |-> "uint16:1", dec |-> "dec:-1.5", str |-> "str:ab", en |-> "enum:RED", idr |-> "enum:CIRCLE",
-       un |-> "int32:5", bin |-> "bin:00"]
+       un |-> "int32:5", bin |-> "bin:00", nu |-> "uint16:80"]
 B2 == [i8 |-> "int8:10", u16 |-> "uint16:2000", dec |-> "dec:10.25", str |-> "str:abcde", en |-> "enum:BLUE", idr |-> "enum:CIRCLE",
-       un |-> "str:abc", bin |-> "bin:00ff1020"]
+       un |-> "str:abc", bin |-> "bin:00ff1020", nu |-> "str:abc"]
 Base(i) == [f \in Fields |->
    IF i = 0 THEN Abs ELSE CHOOSE v \in Cand[f] : v.c = (IF i = 1 THEN B1[f] ELSE B2[f])]
 
@@ -212,7 +223,7 @@ FieldsJson(fl) == SeqOfSet({<<f, fl[f].c>> : f \in {g \in DOMAIN fl : ~IsAbs(fl[
 Emit ==
   CASE Mode = "valid" ->
          PrintT("VALID " \o ToJson([fields |-> FieldsJson(c.fl), cfgll |-> c.st.cfgll, sll |-> c.st.sll, mm |-> c.st.mm, ull |-> c.st.ull,
-                                    ml |-> SeqOfSet(c.st.ml), c2 |-> SeqOfSet(c.st.c2), valid |-> Valid(c)]))
+                                    ml |-> SeqOfSet(c.st.ml), mk |-> SeqOfSet(c.st.mk), c2 |-> SeqOfSet(c.st.c2), valid |-> Valid(c)]))
     [] Mode = "defaults" ->
          PrintT("DEF " \o ToJson([pre |-> SeqOfSet({<<f, DPre(c)[f]>> : f \in c.set}), ch |-> c.ch, dl |-> c.dl,
                                   post |-> SeqOfSet({<<f, DPost(c)[f]>> : f \in DLeaves}), a1 |-> A1After(c)]))
